@@ -141,6 +141,22 @@ def _relex_path(env, piece: str):  # noqa: ANN001, ANN202
     return [(type(e).__name__, str(e)) for e in toks[0].expression]
 
 
+def _relex_statement(env, piece: str):  # noqa: ANN001, ANN202
+    """The signature of the statement obtained by scanning *piece* as the one line of a liquid tag."""
+    from liquid2.exceptions import LiquidError
+
+    try:
+        toks = env.tokenize("{% liquid\n" + piece + "\n%}")
+    except LiquidError as e:
+        return type(e).__name__
+    if len(toks) != 1 or not hasattr(toks[0], "statements"):
+        return [type(t).__name__ for t in toks]
+    sts = [x for x in toks[0].statements]
+    if len(sts) != 1:
+        return [type(x).__name__ for x in sts]
+    return _sig(sts[0])
+
+
 def check_nesting(src: str, tok, lo: int, hi: int, where: str, env=None) -> tuple[str, str] | None:  # noqa: ANN001
     """T3: sub-tokens nest inside their parent's span, in order."""
     last = lo
@@ -158,6 +174,18 @@ def check_nesting(src: str, tok, lo: int, hi: int, where: str, env=None) -> tupl
         if cls == "Token" and src[s:p] != e.value:
             return (f"expr-span:Token:{e.type_.name}:text-mismatch@{where}",
                     f"{src[s:p]!r} != {e.value!r}")
+        # paths and ranges start and end with their own characters, not with the white space
+        # around them
+        if cls in ("PathToken", "RangeToken") and src[s:p] != src[s:p].strip(" \t\r\n"):
+            return (f"expr-span:{cls}:includes-surrounding-whitespace@{where}",
+                    f"{src[s:p]!r} ({s}..{p})")
+        # a line statement of a liquid tag spans its own text: that text alone, as the only
+        # line of a liquid tag, scans to the same statement
+        if cls == "TagToken" and where == "LinesToken" and env is not None:
+            again = _relex_statement(env, src[s:p])
+            if again != _sig(e):
+                return ("expr-span:line-statement:relexes-differently",
+                        f"{src[s:p]!r} ({s}..{p}) scanned alone gives {again!r}, the statement is {_sig(e)!r}")
         # a path's span is precisely the text it was scanned from: alone, that text
         # scans to the same path
         if cls == "PathToken" and env is not None:
@@ -250,6 +278,19 @@ def check_error(err) -> tuple[str, str] | None:  # noqa: ANN001
         if isinstance(ms, int) and isinstance(me, int) and ms >= 0 and tok.start >= 0 and not (ms <= tok.start <= max(me, ms)):
             return ("error-position:ErrorToken:outside-its-markup",
                     f"error at {tok.start}, the markup being scanned spans {ms}..{me}")
+    # an error that names the kind of token it found points at a token of that kind
+    import re as _re
+
+    m = _re.search(r"\bfound ([A-Z][A-Z_]+)\b", str(getattr(err, "message", "") or ""))
+    ty = getattr(getattr(tok, "type_", None), "name", None)
+    if m and ty and m.group(1) != ty and type(tok).__name__ in ("Token", "PathToken", "RangeToken", "TemplateStringToken"):
+        return ("error-position:points-at-another-token-than-it-names",
+                f"message says found {m.group(1)}, the error's token is {ty} {src[max(tok.start, 0) : max(tok.stop, 0)][:30]!r}")
+    # ... and an error about a named tag points at markup that contains that name
+    m2 = _re.fullmatch(r"unexpected '(break|continue)'", str(getattr(err, "message", "") or ""))
+    if m2 and 0 <= tok.start <= tok.stop <= len(src) and m2.group(1) not in src[tok.start : tok.stop].split("%}")[0]:
+        return ("error-position:points-at-another-tag-than-it-names",
+                f"message says unexpected {m2.group(1)!r}, the error's token is {src[tok.start : tok.stop][:40]!r}")
     if s < 0:
         return None  # sentinel, error carries no position
     if s > len(src):
@@ -446,7 +487,26 @@ FRAGS = [
     "{{ 'é😀\\u00e9\\n' }}", "{{ a <> b }}{{ a >= b }}", "{{ a.1 }}", "{{ a.b.0.c[1].2 | f: x.0 }}", "{% if a[b.1].0 == c.2 %}",
     "{% for i in a.0 limit: b.1 %}", "{{ a[0].1['k'].2 }}",
     "{{ cafe\u0301 }}", "{% assign e\u0301te\u0301 = cafe\u0301.cre\u0300me | fi\u0301ltre: cle\u0301: 1 %}",
+    # loop interrupts where there is no loop, nested in other blocks
+    "{% break %}", "{% continue %}",
+    # white space inside brackets, around every kind of selector
+    "{{ a[ b ] }}", "{{ a[b.c  ].d }}", "{{ a[b[c] ] }}", "{{ a[ 'k' ] }}{{ a[ 1 ] }}{{ a[\t-1\n] }}", "{% liquid echo a[ b ] %}",
+    "{{ (a[ b ]..3) }}", "{{ '${a[ b ]}' }}", "{% for i in a[ b.c ] limit: x[ y ] %}", "{{ a[ b ][ c ] | f: d[ e ] }}", "{{ ( 1 .. a[b] ) }}",
+    # the last statement of a liquid tag closed on the same line, ending in every kind of token
+    "{% liquid echo 'a' %}", "{% liquid assign x = '' %}", "{%- liquid echo \"b\" -%}", "{% liquid echo a\n echo 'x${y}' %}",
+    "{% liquid echo 1.5 %}", "{% liquid echo (1..3) %}", "{% liquid echo a[b] %}", "{% liquid echo a | f: 'z'%}", "{% liquid if a == 'q' %}{% endif %}",
+    "{% liquid echo 'a'\t%}", "{% liquid\necho 'a'\n  echo \"b\" ~%}", "{% liquid cycle 'a', 'b' %}",
     "{{ \u2126.\u212b['\ufb01'] }}", "{% for e\u0301 in \uff21\uff22 %}", "{{ x | map: e\u0301 => e\u0301.m\u00b2 }}", "{% translate %}Hi{% plural %}His{% endtranslate %}",
+]
+
+
+RENDER_ERRORS = [
+    "{% if true %}\n  {% break %}\n{% endif %}", "{% with q: 1 %}{% continue %}{% endwith %}", "{% break %}",
+    "{% unless false %}x{% case 1 %}{% when 1 %}\n{% continue %}{% endcase %}{% endunless %}",
+    "{% render 'p' %}", "{% for i in xs %}{% render 'q' %}{% endfor %}", "{% capture c %}\n {% break %}{% endcapture %}",
+    "{% liquid\nif true\n  break\nendif %}", "{% macro m %}a{% endmacro %}{% call m %}\n{% if 1 %}{% continue %}{% endif %}",
+    "{{ 1 | divided_by: 0 }}", "a\n{{ nosuch | nofilter }}", "{% if 1 %}\n{{ 'x' | plus: }}{% endif %}", "{% include 'missing' %}",
+    "{% for i in (1..2) %}\n {% include nosuch %}{% endfor %}", "{% assign x = 1 | modulo: 0 %}", "{{ xs | sort: 'k' | map: }}",
 ]
 
 
@@ -692,6 +752,12 @@ def run_shard(spec: dict[str, Any], ctx: Ctx) -> None:
             r.run(s, {}, {}, render=False)
             rs.run(s, {}, {}, render=False)
             ctx.count("shorthand_index_sources")
+        # complete templates whose ERRORS are raised while rendering
+        tpls = {"p": "x\n{% if true %}{% break %}{% endif %}", "q": "{% unless a %}\n\t{% continue %}{% endunless %}"}
+        for body in RENDER_ERRORS:
+            for pre in ("", "text\n", "{# c #}\r\n  ", "{% assign z = 1 %}\n\n"):
+                r.run(pre + body, {"xs": [1, 2]}, tpls, render=True)
+                ctx.count("render_error_sources")
         ctx.sample({"kind": "fragments", "source": s})
 
 
